@@ -83,8 +83,15 @@ OptChoices ==
     [] Scope = "options" -> {<<>>} \cup Singles(OptItems) \cup Pairs(OptItems)
     [] OTHER             -> {<<>>, <<"transport=rest">>, <<"transport=grpc+rest", "metadata">>}
 
+\* extra: "kw" adds an RPC named by a Python keyword (Import); "internal" = selective generation with
+\* generate_omitted_as_internal listing only the first RPC of the first service; "reserved" adds a request
+\* field named by a reserved word (class)
+ExtraChoices ==
+  CASE Scope = "shapes"  -> {"none", "kw"}
+    [] Scope = "options" -> {"none"}
+    [] OTHER             -> {"none", "kw", "internal", "reserved"}
 Requests == [ pkg : PkgChoices, files : FilesChoices, svcs : SvcChoices, kinds : KindChoices,
-              dep : BOOLEAN, items : OptChoices ]
+              dep : BOOLEAN, items : OptChoices, extra : ExtraChoices ]
 
 Init == /\ req \in Requests
         /\ stage = "start" /\ opts = None /\ package = <<>> /\ naming = None /\ protos = <<>>
@@ -186,7 +193,6 @@ TypesModules == {n \in Emitted : Under(Root \o <<"types">>, n) /\ Len(n) = Len(R
 ServicePkgs == {SubSeq(n, 1, Len(Root) + 2) : n \in {m \in Emitted : Under(Root \o <<"services">>, m) /\ Len(m) > Len(Root) + 2}}
 TransportFiles == {n \in Emitted : Len(n) = Len(Root) + 4 /\ Under(Root \o <<"services">>, n) /\ n[Len(Root) + 3] = "transports"
                                    /\ Last(n) \in {"grpc.py", "grpc_asyncio.py", "rest.py", "rest_base.py", "rest_asyncio.py"}}
-Clients == UNION {{s.camel \o "Client"} \cup (IF HasT("grpc") THEN {s.camel \o "AsyncClient"} ELSE {}) : s \in Services}
 Registry == (IF HasT("grpc") THEN <<"grpc", "grpc_asyncio">> ELSE <<>>) \o (IF HasT("rest") THEN <<"rest">> ELSE <<>>)
 DefaultTransport == Head(Registry)
 Pagers == {n \in Emitted : Last(n) = "pagers.py"}
@@ -243,11 +249,43 @@ Allowed(n) ==
   /\ (Under(Root, n) /\ Last(n) = "gapic_metadata.json") => opts.metadata
 Required == UNION {FamilyFiles(f) : f \in {"root", "metadata", "services_init", "services", "types_init", "types"}}
 
+(* gapic_metadata.json and the keyword fix-up table (C15)                                            *)
+Cap == [unary |-> "Unary", paged |-> "Paged", lro |-> "Lro", sstream |-> "Sstream", cstream |-> "Cstream",
+        bidi |-> "Bidi", void |-> "Void"]
+Rpcs == [j \in 1..Len(req.kinds) |-> [name |-> "M" \o ToString(j - 1) \o Cap[req.kinds[j]],
+                                       snake |-> "m" \o ToString(j - 1) \o "_" \o req.kinds[j]]]
+        \o (IF req.extra = "kw" THEN <<[name |-> "Import", snake |-> "import_"]>> ELSE <<>>)
+\* with "internal", only the first RPC of the first service stays public
+IsInternal(si, ri) == req.extra = "internal" /\ ~(si = 1 /\ ri = 1)
+SvcInternal(si) == \E ri \in 1..Len(Rpcs) : IsInternal(si, ri)
+ClientMethod(si, ri) == (IF IsInternal(si, ri) THEN "_" ELSE "") \o Rpcs[ri].snake
+ClientName(si, async) == (IF SvcInternal(si) THEN "Base" ELSE "") \o req.svcs[si].camel \o (IF async THEN "AsyncClient" ELSE "Client")
+Metadata == [ protoPackage |-> package, libraryPackage |-> Root,
+              services |-> { [ service |-> req.svcs[si].camel,
+                               clients |-> { [kind |-> k, client |-> ClientName(si, k = "grpc-async"),
+                                              rpcs |-> { [rpc |-> Rpcs[ri].name, method |-> ClientMethod(si, ri)] : ri \in 1..Len(Rpcs) }]
+                                             : k \in MetadataKinds } ] : si \in 1..Len(req.svcs) } ]
+\* the carrier request message: declaration order name, [class], page_size, page_token, filter(required)
+ReqFieldsDecl == <<"name">> \o (IF req.extra = "reserved" THEN <<"class_">> ELSE <<>>) \o <<"page_size", "page_token", "filter">>
+ReqRequired == {"filter"}
+FixupParams == SelectSeq(ReqFieldsDecl, LAMBDA f : f \in ReqRequired) \o SelectSeq(ReqFieldsDecl, LAMBDA f : f \notin ReqRequired)
+\* keyed by the snake-cased RPC name (not the client method name): Import -> "import"
+FixupKey(ri) == IF Rpcs[ri].name = "Import" THEN "import" ELSE Rpcs[ri].snake
+Fixup == IF req.svcs = <<>> THEN {} ELSE { [key |-> FixupKey(ri), params |-> FixupParams] : ri \in 1..Len(Rpcs) }
+\* every (service, rpc) exactly once per client kind
+Inv_MetadataOnce == Done => \A s \in Metadata.services : \A c \in s.clients :
+                      Cardinality({r.rpc : r \in c.rpcs}) = Cardinality(c.rpcs) /\ Cardinality(c.rpcs) = Len(Rpcs)
+Inv_ClientNamesDistinct == Done => \A s \in Metadata.services :
+                      \A c1, c2 \in s.clients : (c1.kind \in {"grpc", "rest"} /\ c2.kind = "grpc-async") => c1.client # c2.client
+
+Clients == UNION {{ClientName(si, FALSE)} \cup (IF HasT("grpc") THEN {ClientName(si, TRUE)} ELSE {}) : si \in 1..Len(req.svcs)}
+
 Case == [ req |-> req, opts |-> opts,
           expect |-> [ root |-> Root, types |-> TypesModules, svcpkgs |-> ServicePkgs, transports |-> TransportFiles,
                        clients |-> Clients, registry |-> Registry, default |-> DefaultTransport, pagers |-> Pagers,
                        metadataJson |-> opts.metadata, metadataKinds |-> MetadataKinds,
                        snippetMeta |-> opts.snippets /\ Services # {}, sampleKinds |-> SampleKinds,
+                       metadata |-> Metadata, fixup |-> Fixup, rpcs |-> Rpcs,
                        strict |-> {n \in Emitted : Under(Root, n)} ] ]
 Emit == Done => PrintT(<<"CASE", ToJson(Case)>>)
 =============================================================================
